@@ -313,6 +313,8 @@ type world struct {
 	clock int64
 	// steadyClock suppresses clock anomalies (initial, out-of-scenario loads).
 	steadyClock bool
+	// frozen: the clock has stalled (a persistent anomaly).
+	frozen bool
 	// clockMu guards clock (threads may read time concurrently while draining).
 	clockMu sync.Mutex
 	mon     *monitor
@@ -360,10 +362,19 @@ func (w *world) note(format string, a ...any) {
 
 func (w *world) now() int64 {
 	d := int64(1)
-	if w.opt.clock && !w.steadyClock && verifmc.Cur != nil && !verifmc.Cur.Draining() {
-		switch verifmc.Cur.Choose("clock", []string{"+1ms", "stall", "back-5ms", "jump+1h"}, nil) {
+	w.clockMu.Lock()
+	frozen := w.frozen
+	w.clockMu.Unlock()
+	if frozen {
+		// a stalled clock stays stalled (until the end of the execution)
+		d = 0
+	} else if w.opt.clock && !w.steadyClock && verifmc.Cur != nil && !verifmc.Cur.Draining() {
+		switch verifmc.Cur.Choose("clock", []string{"+1ms", "stalls from now on", "back-5ms", "jump+1h"}, nil) {
 		case 1:
 			d = 0
+			w.clockMu.Lock()
+			w.frozen = true
+			w.clockMu.Unlock()
 		case 2:
 			d = -5
 		case 3:
@@ -378,7 +389,7 @@ func (w *world) now() int64 {
 
 func (w *world) keyFn(h hash.Hash) {
 	w.clockMu.Lock()
-	fmt.Fprintf(h, "clock=%d|", w.clock)
+	fmt.Fprintf(h, "clock=%d frozen=%v|", w.clock, w.frozen)
 	w.clockMu.Unlock()
 	for _, in := range w.insts {
 		fmt.Fprintf(h, "inst %s e%d crashed=%v|", in.name, in.epoch, in.crashed.Load())
@@ -523,6 +534,12 @@ var baseCache sync.Map
 func getBase(size int64) *baseTree {
 	if b, ok := baseCache.Load(size); ok {
 		return b.(*baseTree)
+	}
+	if size < 0 {
+		// no log yet: empty stores (creation scenarios)
+		b := &baseTree{size: 0, store: verifmc.NewStore("obj"), lock: verifmc.NewStore("lock"), clock: 1_700_000_000_000}
+		baseCache.Store(size, b)
+		return b
 	}
 	b := buildBase(size)
 	baseCache.Store(size, b)
